@@ -340,6 +340,18 @@ def analyse(check: Check, repo: Repo) -> None:
             check.count("long_lived_writes_unreachable")
             continue
         check.count("long_lived_write_candidates")
+        if norm_key is None and kind == "attr-store" and isinstance(recv, ast.Name) and recv.id == "self" and target.count(".") == 1:
+            # a lazily compiled pattern, whatever the field is called: `if self.x is None: self.x = re.compile(...)` -
+            # the stored value is a function of the node's own immutable fields, so a race stores equal values
+            stmt = node
+            while stmt is not None and not isinstance(stmt, (ast.Assign, ast.AnnAssign)):
+                stmt = m.parents.get(stmt)
+            val_src = ast.unparse(stmt.value) if stmt is not None and getattr(stmt, "value", None) is not None else ""
+            if "re.compile(" in val_src or "regex.compile(" in val_src:
+                ok, why = check_premise(repo, rel, qual, target, "lazy-cache", node, m)
+                if ok:
+                    check.oblige("SHARED-WRITE", construct, f"{kind} {target}: a lazily compiled pattern; premise checked: {why}", True)
+                    continue
         if norm_key is None and kind == "attr-store" and isinstance(recv, ast.Name) and target.count(".") == 1:
             # a direct attribute store on a local bound exactly once, in this function, to copy.copy(...) /
             # copy.deepcopy(...): the object written is the copy made in this call, wherever the code lives (the
